@@ -1,4 +1,923 @@
+/-
+  C03 — an accepted configuration yields a wire-encodable, meaning-preserving RA.
+
+  Part 1 (codec, `Model/Codec.lean`): for every wire-safe RA, decoding the encoded RA returns
+  the RA with every duration truncated to its field's unit (`roundtrip`), and truncation is
+  the only change (`truncate_meaning`, `truncate_aligned`, `trunc_bounds`).
+
+  Part 2: the RA an accepted advertising stanza calls for (`Spec.C01.expectedRA`, which is the
+  RA the model builds by C01 `ra_eq_spec`) is wire safe (`accepted_wireSafe`, `built_wireSafe`,
+  `accepted_roundtrip`), per option kind (`prefix_opts_encodable`, `route_opts_encodable`,
+  `rdnss_opts_encodable`, `dnssl_opt_encodable`, `mtu_opt_encodable`, `lla_opt_encodable`,
+  `portal_opt_encodable`, `pref64_opt_encodable`) and for the header (`header_wireSafe`).
+
+  Hypotheses of Part 2, each shown necessary by a concrete witness at the end of the file:
+    * input well-formedness: parsed CIDRs have ≤ 128 bits (C02 `wfIface`) and 128-bit address
+      values (`wfVals`; `wfVals_needed`) — both guaranteed by `netip`;
+    * the clock does not run before the epoch (`clock_needed`);
+    * the hardware address, if any, has 6 bytes;
+    * the address dump is well-formed (C14 `WF`), the route dump valid, canonical, 128-bit (`WFr`);
+    * an `rdnss` stanza lists at most 127 servers (`count_needed`: the documented constraints
+      put no limit on the count);
+    * a configured captive portal has a non-empty URI (`portal_len_needed`).
+-/
 import Corerad.Spec.C03
+import Corerad.Model.Codec
+import Corerad.Props.C01
+import Corerad.Props.C13
+import Corerad.Props.C14
+import Corerad.Props.C15
+
 namespace Corerad.Props.C03
-theorem placeholder : True := trivial
+
+open Corerad Corerad.Model Corerad.Spec.C03
+
+/-! ### Part 1 — the codec round trip -/
+
+theorem second_pos : 0 < second := by decide
+theorem ms_pos : 0 < ms := by decide
+theorem sec8_pos : 0 < 8 * second := by decide
+
+/-- one duration field: encode, then decode, is truncation to the unit — provided the value
+    fits the field -/
+theorem dur_roundtrip (d unit : Dur) (bits : Nat) (hu : 0 < unit) (h : fits d unit bits = true) :
+    decodeDur (encodeDur d unit bits) unit = trunc d unit := by
+  unfold fits at h
+  simp only [Bool.and_eq_true, decide_eq_true_eq] at h
+  obtain ⟨h0, hlt⟩ := h
+  have hq0 : 0 ≤ d / unit := Int.ediv_nonneg h0 (Int.le_of_lt hu)
+  have hlt' : (d / unit).toNat < 2 ^ bits := by
+    rw [Int.toNat_lt hq0, Int.natCast_pow]; exact hlt
+  unfold decodeDur encodeDur trunc
+  rw [Nat.mod_eq_of_lt hlt', Int.toNat_of_nonneg hq0, Int.emod_def, Int.mul_comm]
+  omega
+
+/-- a field whose value is a multiple of the unit survives unchanged -/
+theorem dur_roundtrip_exact (d unit : Dur) (bits : Nat) (hu : 0 < unit) (h : fits d unit bits = true)
+    (hm : d % unit = 0) : decodeDur (encodeDur d unit bits) unit = d := by
+  rw [dur_roundtrip d unit bits hu h]; unfold trunc; omega
+
+theorem opt_roundtrip (o : Opt) (h : encodable o = true) : decodeOpt (encodeOpt o) = truncOpt o := by
+  cases o with
+  | pi a len ol au v p =>
+    simp only [encodable, Bool.and_eq_true] at h
+    simp only [encodeOpt, decodeOpt, truncOpt, dur_roundtrip _ _ _ second_pos h.1.2,
+      dur_roundtrip _ _ _ second_pos h.2]
+  | ri a len pref l =>
+    simp only [encodable, Bool.and_eq_true] at h
+    simp only [encodeOpt, decodeOpt, truncOpt, dur_roundtrip _ _ _ second_pos h.2]
+  | rdnss l s =>
+    simp only [encodable, Bool.and_eq_true] at h
+    simp only [encodeOpt, decodeOpt, truncOpt, dur_roundtrip _ _ _ second_pos h.2]
+  | dnssl l n =>
+    simp only [encodable, Bool.and_eq_true] at h
+    simp only [encodeOpt, decodeOpt, truncOpt, dur_roundtrip _ _ _ second_pos h.2]
+  | mtu m =>
+    simp only [encodable, Bool.and_eq_true, decide_eq_true_eq] at h
+    simp only [encodeOpt, decodeOpt, truncOpt, Opt.mtu.injEq]
+    have : (2:Int) ^ 32 = 4294967296 := by decide
+    have : (2:Nat) ^ 32 = 4294967296 := by decide
+    omega
+  | lla len mac => rfl
+  | captivePortal u len => rfl
+  | pref64 p l =>
+    simp only [encodable, Bool.and_eq_true, decide_eq_true_eq, beq_iff_eq] at h
+    obtain ⟨⟨⟨_, h0⟩, hm⟩, hq⟩ := h
+    have hf : fits l (8 * second) 13 = true := by
+      unfold fits
+      simp only [Bool.and_eq_true, decide_eq_true_eq]
+      refine ⟨h0, ?_⟩
+      have : (2:Int) ^ 13 = 8192 := by decide
+      omega
+    simp only [encodeOpt, decodeOpt, truncOpt, dur_roundtrip_exact _ _ _ sec8_pos hf hm]
+
+/-- **Round trip.**  Decoding the encoding of a wire-safe RA returns its truncation. -/
+theorem roundtrip (ra : RA) (h : wireSafe ra = true) : decodeFields (encodeFields ra) = truncateRA ra := by
+  unfold wireSafe at h
+  simp only [Bool.and_eq_true, decide_eq_true_eq, List.all_eq_true] at h
+  obtain ⟨⟨⟨⟨⟨hh, hp⟩, hrl⟩, hre⟩, hrt⟩, hopts⟩ := h
+  unfold decodeFields encodeFields truncateRA
+  simp only [dur_roundtrip _ _ _ second_pos hrl, dur_roundtrip _ _ _ ms_pos hre,
+    dur_roundtrip _ _ _ ms_pos hrt, List.map_map]
+  have hhl : ra.hopLimit % 2 ^ 8 = ra.hopLimit := Nat.mod_eq_of_lt (by omega)
+  have hpr : ra.preference % 2 ^ 2 = ra.preference := by
+    simp only [Bool.or_eq_true, beq_iff_eq] at hp
+    rcases hp with (hp | hp) | hp <;> rw [hp]
+  have hmap : ra.options.map (decodeOpt ∘ encodeOpt) = ra.options.map truncOpt :=
+    List.map_congr_left (fun o ho => opt_roundtrip o (hopts o ho))
+  rw [hhl, hpr, hmap]
+
+/-- encoding is insensitive to the sub-unit part: an RA and its truncation have the same bytes -/
+theorem encode_trunc_dur (d unit : Dur) (bits : Nat) (hu : 0 < unit) :
+    encodeDur (trunc d unit) unit bits = encodeDur d unit bits := by
+  unfold encodeDur trunc
+  have : (d - d % unit) / unit = d / unit := by
+    rw [Int.emod_def, show d - (d - unit * (d / unit)) = unit * (d / unit) by omega]
+    exact Int.mul_ediv_cancel_left _ (by omega)
+  rw [this]
+
+/-! #### truncation is the only change -/
+
+/-- the truncation is the largest multiple of the unit not above the value -/
+theorem trunc_bounds (d unit : Dur) (hu : 0 < unit) :
+    trunc d unit ≤ d ∧ d - unit < trunc d unit ∧ trunc d unit % unit = 0 := by
+  unfold trunc
+  have h1 := Int.emod_nonneg d (Int.ne_of_gt hu)
+  have h2 := Int.emod_lt_of_pos d hu
+  refine ⟨by omega, by omega, ?_⟩
+  rw [Int.emod_def d unit, show d - (d - unit * (d / unit)) = unit * (d / unit) by omega]
+  exact Int.mul_emod_right _ _
+
+theorem trunc_nonneg (d unit : Dur) (hu : 0 < unit) (h0 : 0 ≤ d) : 0 ≤ trunc d unit := by
+  unfold trunc
+  have hq : 0 ≤ d / unit := Int.ediv_nonneg h0 (Int.le_of_lt hu)
+  rw [Int.emod_def d unit, show d - (d - unit * (d / unit)) = unit * (d / unit) by omega]
+  exact Int.mul_nonneg (Int.le_of_lt hu) hq
+
+theorem trunc_eq_self_iff (d unit : Dur) : trunc d unit = d ↔ d % unit = 0 := by
+  unfold trunc; omega
+
+theorem trunc_idem (d unit : Dur) (hu : 0 < unit) : trunc (trunc d unit) unit = trunc d unit := by
+  rw [trunc_eq_self_iff]; exact (trunc_bounds d unit hu).2.2
+
+/-- every duration of the RA is a whole number of its field's unit -/
+def alignedOpt : Opt → Bool
+  | .pi _ _ _ _ v p => v % second == 0 && p % second == 0
+  | .ri _ _ _ l => l % second == 0
+  | .rdnss l _ => l % second == 0
+  | .dnssl l _ => l % second == 0
+  | _ => true
+
+def aligned (ra : RA) : Bool :=
+  ra.routerLifetime % second == 0 && ra.reachable % ms == 0 && ra.retransmit % ms == 0 &&
+  ra.options.all alignedOpt
+
+theorem truncOpt_aligned (o : Opt) (h : alignedOpt o = true) : truncOpt o = o := by
+  cases o <;> simp only [alignedOpt, Bool.and_eq_true, beq_iff_eq] at h <;>
+    simp only [truncOpt, trunc] <;> (try rfl)
+  · obtain ⟨h1, h2⟩ := h; rw [h1, h2]; simp
+  · rw [h]; simp
+  · rw [h]; simp
+  · rw [h]; simp
+
+/-- on RAs whose durations are whole units, truncation is the identity: the decoded RA *is*
+    the advertisement -/
+theorem truncate_aligned (ra : RA) (h : aligned ra = true) : truncateRA ra = ra := by
+  unfold aligned at h
+  simp only [Bool.and_eq_true, beq_iff_eq, List.all_eq_true] at h
+  obtain ⟨⟨⟨h1, h2⟩, h3⟩, h4⟩ := h
+  unfold truncateRA trunc
+  have hmap : ra.options.map truncOpt = ra.options := by
+    have := List.map_congr_left (f := truncOpt) (g := id) (fun o ho => truncOpt_aligned o (h4 o ho))
+    rw [this, List.map_id]
+  rw [h1, h2, h3, hmap]
+  simp
+
+/-- **Meaning.**  `truncateRA ra` differs from `ra` only in its duration fields, each of which
+    becomes `d - d % unit`: flags, hop limit, preference, the number and order of options,
+    and every non-duration component of every option are unchanged. -/
+theorem truncate_meaning (ra : RA) :
+    (truncateRA ra).hopLimit = ra.hopLimit ∧ (truncateRA ra).managed = ra.managed ∧
+    (truncateRA ra).other = ra.other ∧ (truncateRA ra).preference = ra.preference ∧
+    (truncateRA ra).routerLifetime = ra.routerLifetime - ra.routerLifetime % second ∧
+    (truncateRA ra).reachable = ra.reachable - ra.reachable % ms ∧
+    (truncateRA ra).retransmit = ra.retransmit - ra.retransmit % ms ∧
+    (truncateRA ra).options.length = ra.options.length ∧
+    ∀ k (hk : k < ra.options.length), ∃ o', (truncateRA ra).options[k]? = some o' ∧
+      match ra.options[k], o' with
+      | .pi a len ol au v p, .pi a' len' ol' au' v' p' =>
+        a' = a ∧ len' = len ∧ ol' = ol ∧ au' = au ∧ v' = v - v % second ∧ p' = p - p % second
+      | .ri a len pref l, .ri a' len' pref' l' => a' = a ∧ len' = len ∧ pref' = pref ∧ l' = l - l % second
+      | .rdnss l s, .rdnss l' s' => l' = l - l % second ∧ s' = s
+      | .dnssl l n, .dnssl l' n' => l' = l - l % second ∧ n' = n
+      | o, o' => o' = o := by
+  refine ⟨rfl, rfl, rfl, rfl, rfl, rfl, rfl, by simp [truncateRA], ?_⟩
+  intro k hk
+  refine ⟨truncOpt ra.options[k], by simp [truncateRA, hk], ?_⟩
+  cases ra.options[k] <;> simp [truncOpt, trunc]
+
+theorem truncateRA_idem (ra : RA) : truncateRA (truncateRA ra) = truncateRA ra := by
+  apply truncate_aligned
+  unfold aligned truncateRA
+  simp only [Bool.and_eq_true, beq_iff_eq, List.all_eq_true, List.mem_map]
+  refine ⟨⟨⟨(trunc_bounds _ _ second_pos).2.2, (trunc_bounds _ _ ms_pos).2.2⟩, (trunc_bounds _ _ ms_pos).2.2⟩, ?_⟩
+  rintro _ ⟨o, _, rfl⟩
+  cases o <;> simp only [truncOpt, alignedOpt, Bool.and_eq_true, beq_iff_eq] <;>
+    first | rfl | exact (trunc_bounds _ _ second_pos).2.2 |
+      exact ⟨(trunc_bounds _ _ second_pos).2.2, (trunc_bounds _ _ second_pos).2.2⟩
+
+/-- the wire image of an RA is determined by its truncation: no sub-unit information is sent -/
+theorem encode_truncate (ra : RA) : encodeFields (truncateRA ra) = encodeFields ra := by
+  unfold encodeFields truncateRA
+  simp only [encode_trunc_dur _ _ _ second_pos, encode_trunc_dur _ _ _ ms_pos, List.map_map]
+  congr 1
+  apply List.map_congr_left
+  intro o _
+  cases o <;> simp only [Function.comp, truncOpt, encodeOpt, encode_trunc_dur _ _ _ second_pos]
+
+open Corerad.Spec.C02 (docPrefix docRoute docRDNSS docDNSSL docPref64 pfxOf wildPrefix wildRoute resolve inPos inNonneg)
+open Corerad.Props.C02 (wfPfx)
+
+/-! ### Part 2 — accepted configurations are wire safe -/
+
+/-! #### arithmetic of masks -/
+
+theorem maskVal_idem (len b v : Nat) : Prefix.maskVal len b (Prefix.maskVal len b v) = Prefix.maskVal len b v := by
+  unfold Prefix.maskVal
+  split
+  · rfl
+  · rw [Nat.mul_div_cancel _ (Nat.pow_pos (by decide : 0 < 2))]
+
+theorem maskVal_le (len b v : Nat) : Prefix.maskVal len b v ≤ v := by
+  unfold Prefix.maskVal
+  split
+  · exact Nat.le_refl _
+  · exact Nat.div_mul_le_self _ _
+
+theorem masked_idem (p : Prefix) : p.masked.masked = p.masked := by
+  unfold Prefix.masked
+  have hb : ({ p.addr with val := Prefix.maskVal p.addr.bitLen p.bits p.addr.val } : IP).bitLen = p.addr.bitLen := rfl
+  simp only [hb, maskVal_idem]
+
+theorem is6_parts (a : IP) (h : a.is6 = true) : a.valid = true ∧ a.v4 = false := by
+  unfold IP.is6 at h
+  simpa using h
+
+theorem is6_bitLen (a : IP) (h : a.is6 = true) : a.bitLen = 128 := by
+  obtain ⟨hv, h4⟩ := is6_parts a h
+  unfold IP.bitLen; simp [hv, h4]
+
+/-- a masked (canonical) valid IPv6 prefix with a 128-bit value is canonical on the wire -/
+theorem canonical_of_masked (q : Prefix) (h6 : q.addr.is6 = true) (hm : q.masked = q) (hb : q.bits ≤ 128)
+    (hv : q.addr.val < 2 ^ 128) : canonical6 q.addr q.bits = true := by
+  have hval : Prefix.maskVal 128 q.bits q.addr.val = q.addr.val := by
+    have := congrArg (fun x => x.addr.val) hm
+    simpa [Prefix.masked, is6_bitLen q.addr h6] using this
+  unfold canonical6
+  simp [h6, hb, hval, hv]
+
+theorem canonical_of_c02 (q : Prefix) (hc : Spec.C02.canonical6 q = true) (hb : q.bits ≤ 128)
+    (hv : q.addr.val < 2 ^ 128) : canonical6 q.addr q.bits = true := by
+  unfold Spec.C02.canonical6 at hc
+  simp only [Bool.and_eq_true, beq_iff_eq, Bool.not_eq_true'] at hc
+  exact canonical_of_masked q hc.1.2 hc.1.1 hb hv
+
+/-! #### lifetimes -/
+
+theorem fits_sec32 (d : Dur) (h0 : 0 ≤ d) (h : d ≤ Spec.C02.maxLifetime) : fits d second 32 = true := by
+  unfold fits
+  simp only [Bool.and_eq_true, decide_eq_true_eq]
+  refine ⟨h0, ?_⟩
+  unfold Spec.C02.maxLifetime second at *
+  omega
+
+theorem lifetimeNow_bounds (dep : Bool) (sys : SysState) (l : Dur) (hclock : sys.epoch ≤ sys.now) (h0 : 0 ≤ l) :
+    0 ≤ Spec.C01.lifetimeNow dep sys l ∧ Spec.C01.lifetimeNow dep sys l ≤ l := by
+  unfold Spec.C01.lifetimeNow
+  cases dep <;> simp <;> omega
+
+theorem fits_lifetimeNow (dep : Bool) (sys : SysState) (l : Dur) (hclock : sys.epoch ≤ sys.now)
+    (h0 : 0 ≤ l) (h : l ≤ Spec.C02.maxLifetime) : fits (Spec.C01.lifetimeNow dep sys l) second 32 = true := by
+  have := lifetimeNow_bounds dep sys l hclock h0
+  exact fits_sec32 _ this.1 (by omega)
+
+theorem inPos_bounds (d : Dur) (h : Spec.C02.inPos d = true) : 0 ≤ d ∧ d ≤ Spec.C02.maxLifetime := by
+  unfold Spec.C02.inPos at h
+  simp only [Bool.and_eq_true, decide_eq_true_eq] at h
+  exact ⟨by omega, h.2⟩
+
+theorem inNonneg_bounds (d : Dur) (h : Spec.C02.inNonneg d = true) : 0 ≤ d ∧ d ≤ Spec.C02.maxLifetime := by
+  unfold Spec.C02.inNonneg at h
+  simpa using h
+
+/-! #### what `pfxOf` returns -/
+
+theorem pfxOf_cases (wild : Prefix) (s : PfxStr) (q : Prefix) (h : Spec.C02.pfxOf wild s = some q) :
+    q = wild ∨ (s = .ok q ∧ Spec.C02.canonical6 q = true) := by
+  cases s with
+  | empty => simp only [Spec.C02.pfxOf, Option.some.injEq] at h; exact Or.inl h.symm
+  | bad => cases h
+  | ok p =>
+    simp only [Spec.C02.pfxOf] at h
+    split at h
+    · rename_i hc
+      simp only [Option.some.injEq] at h
+      subst h
+      exact Or.inr ⟨rfl, hc⟩
+    · cases h
+
+
+/-- value well-formedness of a successfully parsed CIDR: `netip` addresses are 128-bit values -/
+def wfVal : PfxStr → Prop
+  | .ok p => p.addr.val < 2 ^ 128
+  | _ => True
+
+/-- well-formed route dump: valid, canonical prefixes (C15's `WF`) with 128-bit values -/
+def WFr (rs : List Prefix) : Prop := Props.C15.WF rs ∧ ∀ r ∈ rs, r.addr.val < 2 ^ 128
+
+theorem isValid_valid (p : Prefix) (h : p.isValid = true) : p.addr.valid = true := by
+  unfold Prefix.isValid at h; simp only [Bool.and_eq_true] at h; exact h.1
+
+theorem not_is4_is6 (a : IP) (hv : a.valid = true) (h4 : a.is4 = false) : a.is6 = true := by
+  unfold IP.is4 at h4; unfold IP.is6
+  simp only [hv, Bool.true_and] at h4 ⊢
+  simp [h4]
+
+/-- every prefix the `::/64` wildcard expands to is a canonical IPv6 /64 -/
+theorem wild_prefix_canonical (as : List SysIP) (hwf : Props.C14.WF as) (x : Prefix)
+    (hx : x ∈ currentPrefixes 64 as) : canonical6 x.addr x.bits = true := by
+  obtain ⟨a, ha, he, rfl⟩ := (Props.C13.mem_iff 64 as x).mp hx
+  obtain ⟨_, hval⟩ := hwf a ha
+  unfold Spec.C13.eligible at he
+  simp only [Bool.and_eq_true, Bool.not_eq_true', beq_iff_eq] at he
+  obtain ⟨⟨⟨⟨⟨hv, h4⟩, _⟩, hb⟩, _⟩, _⟩ := he
+  have h6 : a.addr.masked.addr.is6 = true := not_is4_is6 _ (isValid_valid _ hv) h4
+  apply canonical_of_masked _ h6 (masked_idem _)
+  · show a.addr.bits ≤ 128; omega
+  · exact Nat.lt_of_le_of_lt (maskVal_le _ _ _) hval
+
+theorem docPrefix_parts (p : RawPrefix) (h : docPrefix p = true) :
+    ∃ q v pr, pfxOf wildPrefix p.pstr = some q ∧ resolve p.valid (24 * hour) = some v ∧
+      resolve p.preferred (4 * hour) = some pr ∧ inPos v = true ∧ inPos pr = true := by
+  unfold docPrefix at h
+  cases hq : pfxOf wildPrefix p.pstr with
+  | none => rw [hq] at h; simp at h
+  | some q =>
+    cases hv : resolve p.valid (24 * hour) with
+    | none => rw [hq, hv] at h; simp at h
+    | some v =>
+      cases hpr : resolve p.preferred (4 * hour) with
+      | none => rw [hq, hv, hpr] at h; simp at h
+      | some pr =>
+        rw [hq, hv, hpr] at h
+        simp only [Bool.and_eq_true] at h
+        exact ⟨q, v, pr, rfl, rfl, rfl, h.1.1.1.2, h.1.1.2⟩
+
+/-- every option of a documented `prefix` stanza is encodable -/
+theorem prefix_opts_encodable (sys : SysState) (p : RawPrefix) (hdoc : docPrefix p = true)
+    (hwf : wfPfx p.pstr = true) (hval : wfVal p.pstr) (hclock : sys.epoch ≤ sys.now)
+    (haddrs : ∀ as, sys.addrs = some as → Props.C14.WF as)
+    (l : List Opt) (h : Spec.C01.prefixOpts sys p = some l) : ∀ o ∈ l, encodable o = true := by
+  obtain ⟨q, v, pr, hq, hv, hpr, hvp, hprp⟩ := docPrefix_parts p hdoc
+  have hfv := fits_lifetimeNow p.deprecated sys v hclock (inPos_bounds v hvp).1 (inPos_bounds v hvp).2
+  have hfp := fits_lifetimeNow p.deprecated sys pr hclock (inPos_bounds pr hprp).1 (inPos_bounds pr hprp).2
+  unfold Spec.C01.prefixOpts at h
+  simp only [hq, hv, hpr, Option.getD_some] at h
+  by_cases hw : q = wildPrefix
+  · subst hw
+    simp only [beq_self_eq_true, if_true] at h
+    cases hs : sys.addrs with
+    | none => rw [hs] at h; cases h
+    | some as =>
+      rw [hs] at h
+      simp only [Option.map_some, Option.some.injEq] at h
+      subst h
+      intro o ho
+      obtain ⟨x, hx, rfl⟩ := List.mem_map.mp ho
+      simp only [encodable, Bool.and_eq_true]
+      exact ⟨⟨wild_prefix_canonical as (haddrs as hs) x hx, hfv⟩, hfp⟩
+  · have hne : (q == wildPrefix) = false := by simpa using hw
+    simp only [hne, Bool.false_eq_true, if_false, Option.some.injEq] at h
+    subst h
+    intro o ho
+    simp only [List.mem_singleton] at ho
+    subst ho
+    rcases pfxOf_cases _ _ _ hq with hq' | ⟨hs, hc⟩
+    · exact absurd hq' hw
+    · rw [hs] at hwf hval
+      simp only [wfPfx, decide_eq_true_eq] at hwf
+      simp only [encodable, Bool.and_eq_true]
+      exact ⟨⟨canonical_of_c02 q hc hwf hval, hfv⟩, hfp⟩
+
+/-! #### routes -/
+
+theorem prefCode_vals (c pc : Nat) (h : Spec.C02.prefCode c = some pc) : pc = 0 ∨ pc = 1 ∨ pc = 3 := by
+  match c, h with
+  | 0, h => simp [Spec.C02.prefCode] at h; omega
+  | 1, h => simp [Spec.C02.prefCode] at h; omega
+  | 2, h => simp [Spec.C02.prefCode] at h; omega
+  | 3, h => simp [Spec.C02.prefCode] at h; omega
+  | _ + 4, h => simp [Spec.C02.prefCode] at h
+
+theorem pref_ok (pc : Nat) (h : pc = 0 ∨ pc = 1 ∨ pc = 3) : (pc == 0 || pc == 1 || pc == 3) = true := by
+  rcases h with rfl | rfl | rfl <;> rfl
+
+/-- every route the `::/0` wildcard expands to is a canonical IPv6 prefix -/
+theorem wild_route_canonical (rs : List Prefix) (hwf : WFr rs) (x : Prefix)
+    (hx : x ∈ currentRoutes rs) : canonical6 x.addr x.bits = true := by
+  obtain ⟨hmem, hw⟩ := (Props.C15.mem_iff rs x).mp hx
+  obtain ⟨hv, hm⟩ := hwf.1 x hmem
+  have hval := hwf.2 x hmem
+  unfold Spec.C15.wanted at hw
+  simp only [Bool.and_eq_true, Bool.not_eq_true'] at hw
+  have h6 : x.addr.is6 = true := not_is4_is6 _ (isValid_valid _ hv) hw.1.1
+  have hb : x.bits ≤ 128 := by
+    unfold Prefix.isValid at hv
+    simp only [Bool.and_eq_true, decide_eq_true_eq, is6_bitLen _ h6] at hv
+    exact hv.2
+  exact canonical_of_masked x h6 hm hb hval
+
+theorem docRoute_parts (r : RawRoute) (h : docRoute r = true) :
+    ∃ q l pc, pfxOf wildRoute r.pstr = some q ∧ resolve r.lifetime (24 * hour) = some l ∧
+      Spec.C02.prefCode r.preference = some pc ∧ inPos l = true := by
+  unfold docRoute at h
+  cases hq : pfxOf wildRoute r.pstr with
+  | none => rw [hq] at h; simp at h
+  | some q =>
+    cases hl : resolve r.lifetime (24 * hour) with
+    | none => rw [hq, hl] at h; simp at h
+    | some l =>
+      cases hpc : Spec.C02.prefCode r.preference with
+      | none => rw [hq, hl, hpc] at h; simp at h
+      | some pc =>
+        rw [hq, hl, hpc] at h
+        simp only [Bool.and_eq_true] at h
+        exact ⟨q, l, pc, rfl, rfl, rfl, h.1.2⟩
+
+/-- every option of a documented `route` stanza is encodable -/
+theorem route_opts_encodable (sys : SysState) (r : RawRoute) (hdoc : docRoute r = true)
+    (hwf : wfPfx r.pstr = true) (hval : wfVal r.pstr) (hclock : sys.epoch ≤ sys.now)
+    (hroutes : ∀ rs, sys.routes = some rs → WFr rs)
+    (l : List Opt) (h : Spec.C01.routeOpts sys r = some l) : ∀ o ∈ l, encodable o = true := by
+  obtain ⟨q, lt, pc, hq, hl, hpc, hlp⟩ := docRoute_parts r hdoc
+  have hfl := fits_lifetimeNow r.deprecated sys lt hclock (inPos_bounds lt hlp).1 (inPos_bounds lt hlp).2
+  have hpref := pref_ok pc (prefCode_vals _ _ hpc)
+  unfold Spec.C01.routeOpts at h
+  simp only [hq, hl, hpc, Option.getD_some] at h
+  by_cases hw : q = wildRoute
+  · subst hw
+    simp only [beq_self_eq_true, if_true] at h
+    cases hs : sys.routes with
+    | none => rw [hs] at h; cases h
+    | some rs =>
+      rw [hs] at h
+      simp only [Option.map_some, Option.some.injEq] at h
+      subst h
+      intro o ho
+      obtain ⟨x, hx, rfl⟩ := List.mem_map.mp ho
+      simp only [encodable, Bool.and_eq_true]
+      exact ⟨⟨wild_route_canonical rs (hroutes rs hs) x hx, hpref⟩, hfl⟩
+  · have hne : (q == wildRoute) = false := by simpa using hw
+    simp only [hne, Bool.false_eq_true, if_false, Option.some.injEq] at h
+    subst h
+    intro o ho
+    simp only [List.mem_singleton] at ho
+    subst ho
+    rcases pfxOf_cases _ _ _ hq with hq' | ⟨hs, hc⟩
+    · exact absurd hq' hw
+    · rw [hs] at hwf hval
+      simp only [wfPfx, decide_eq_true_eq] at hwf
+      simp only [encodable, Bool.and_eq_true]
+      exact ⟨⟨canonical_of_c02 q hc hwf hval, hpref⟩, hfl⟩
+
+/-! #### RDNSS -/
+
+theorem serverOk_is6 (s : AddrStr) (h : Spec.C02.serverOk s = true) : (Spec.C02.serverAddr s).is6 = true := by
+  cases s with
+  | bad => cases h
+  | ok a => simp only [Spec.C02.serverOk, Bool.and_eq_true] at h; exact h.1
+
+/-- the address the `::` wildcard chooses is an IPv6 address -/
+theorem wild_rdnss_is6 (as : List SysIP) (hwf : Props.C14.WF as) (ip : IP) (h : currentRDNSS as = some ip) :
+    ip.is6 = true := by
+  obtain ⟨a, ha, he, rfl, _⟩ := (Props.C14.some_iff as hwf ip).mp h
+  unfold Spec.C14.eligible at he
+  simp only [Bool.and_eq_true, Bool.not_eq_true'] at he
+  exact not_is4_is6 _ (isValid_valid _ (hwf a ha).1) he.1.1.1
+
+theorem docRDNSS_parts (maxI : Dur) (d : RawRDNSS) (h : docRDNSS maxI d = true) :
+    ∃ l, resolve d.lifetime (3 * maxI) = some l ∧ inNonneg l = true ∧ d.servers.all Spec.C02.serverOk = true := by
+  unfold docRDNSS at h
+  cases hl : resolve d.lifetime (3 * maxI) with
+  | none => rw [hl] at h; cases h
+  | some l =>
+    rw [hl] at h
+    simp only [Bool.and_eq_true] at h
+    exact ⟨l, rfl, h.1.1.1, h.1.1.2⟩
+
+/-- every option of a documented `rdnss` stanza with at most 127 servers is encodable -/
+theorem rdnss_opts_encodable (sys : SysState) (maxI : Dur) (d : RawRDNSS) (hdoc : docRDNSS maxI d = true)
+    (hcount : d.servers.length ≤ 127) (haddrs : ∀ as, sys.addrs = some as → Props.C14.WF as)
+    (l : List Opt) (h : Spec.C01.rdnssOpts sys maxI d = some l) : ∀ o ∈ l, encodable o = true := by
+  obtain ⟨lt, hl, hlp, hok⟩ := docRDNSS_parts maxI d hdoc
+  have hfl := fits_sec32 lt (inNonneg_bounds lt hlp).1 (inNonneg_bounds lt hlp).2
+  rw [List.all_eq_true] at hok
+  unfold Spec.C01.rdnssOpts at h
+  simp only [hl, Option.getD_some] at h
+  -- the static servers
+  have hlen : (sortBy addrKey ((d.servers.map Spec.C02.serverAddr).filter (fun a => !a.isUnspecified))).length =
+      ((d.servers.map Spec.C02.serverAddr).filter (fun a => !a.isUnspecified)).length :=
+    (sortBy_perm _ _).length_eq
+  have hall6 : ∀ x ∈ sortBy addrKey ((d.servers.map Spec.C02.serverAddr).filter (fun a => !a.isUnspecified)),
+      x.is6 = true := by
+    intro x hx
+    rw [mem_sortBy, List.mem_filter, List.mem_map] at hx
+    obtain ⟨⟨s, hs, rfl⟩, _⟩ := hx
+    exact serverOk_is6 s (hok s hs)
+  generalize hst : sortBy addrKey ((d.servers.map Spec.C02.serverAddr).filter (fun a => !a.isUnspecified)) = static at *
+  by_cases hauto : (d.servers.isEmpty || (d.servers.map Spec.C02.serverAddr).any (·.isUnspecified)) = true
+  · rw [if_pos hauto] at h
+    cases hs : sys.addrs with
+    | none => rw [hs] at h; cases h
+    | some as =>
+      rw [hs] at h
+      simp only at h
+      cases hc : currentRDNSS as with
+      | none => rw [hc] at h; cases h
+      | some ip =>
+        rw [hc] at h
+        simp only [Option.map_some, Option.some.injEq] at h
+        subst h
+        intro o ho
+        simp only [List.mem_singleton] at ho
+        subst ho
+        have hlt : static.length + 1 ≤ 127 := by
+          rw [hlen]
+          simp only [Bool.or_eq_true, List.isEmpty_iff, List.any_eq_true] at hauto
+          rcases hauto with he | ⟨x, hx, hu⟩
+          · simp [he]
+          · have : ((d.servers.map Spec.C02.serverAddr).filter (fun a => !a.isUnspecified)).length <
+                (d.servers.map Spec.C02.serverAddr).length :=
+              List.length_filter_lt_length_iff_exists.mpr ⟨x, hx, by simp [hu]⟩
+            rw [List.length_map] at this
+            omega
+        simp only [encodable, Bool.and_eq_true, List.isEmpty_cons, Bool.not_false, List.length_cons,
+          decide_eq_true_eq, List.all_cons, true_and]
+        exact ⟨⟨hlt, wild_rdnss_is6 as (haddrs as hs) ip hc, List.all_eq_true.mpr hall6⟩, hfl⟩
+  · rw [if_neg hauto] at h
+    simp only [Option.some.injEq] at h
+    subst h
+    intro o ho
+    simp only [List.mem_singleton] at ho
+    subst ho
+    simp only [Bool.or_eq_true, not_or, Bool.not_eq_true, List.any_eq_false] at hauto
+    obtain ⟨hne, hnu⟩ := hauto
+    have hfull : (d.servers.map Spec.C02.serverAddr).filter (fun a => !a.isUnspecified) = d.servers.map Spec.C02.serverAddr :=
+      List.filter_eq_self.mpr (fun x hx => by simpa using hnu x hx)
+    rw [hfull, List.length_map] at hlen
+    have hpos : 0 < d.servers.length := by
+      cases hd : d.servers with
+      | nil => rw [hd] at hne; simp at hne
+      | cons _ _ => simp
+    have hnem : static.isEmpty = false := by
+      cases static with
+      | nil => simp at hlen; omega
+      | cons _ _ => rfl
+    simp only [encodable, Bool.and_eq_true, hnem, Bool.not_false, decide_eq_true_eq, true_and]
+    exact ⟨⟨by omega, List.all_eq_true.mpr hall6⟩, hfl⟩
+
+/-! #### DNSSL, MTU, source LLA, captive portal, PREF64 -/
+
+theorem dnssl_opt_encodable (maxI : Dur) (d : RawDNSSL) (hdoc : docDNSSL maxI d = true) :
+    encodable (Opt.dnssl ((resolve d.lifetime (3 * maxI)).getD 0) d.names) = true := by
+  unfold docDNSSL at hdoc
+  cases hl : resolve d.lifetime (3 * maxI) with
+  | none => rw [hl] at hdoc; cases hdoc
+  | some l =>
+    rw [hl] at hdoc
+    simp only [Bool.and_eq_true] at hdoc
+    obtain ⟨⟨hlp, hne⟩, _⟩ := hdoc
+    simp only [Option.getD_some, encodable, Bool.and_eq_true]
+    exact ⟨hne, fits_sec32 l (inNonneg_bounds l hlp).1 (inNonneg_bounds l hlp).2⟩
+
+theorem mtu_opt_encodable (m : Int) (h0 : 0 ≤ m) (h1 : m ≤ 65536) : encodable (Opt.mtu m) = true := by
+  simp only [encodable, Bool.and_eq_true, decide_eq_true_eq]
+  have : (2:Int) ^ 32 = 4294967296 := by decide
+  omega
+
+theorem lla_opt_encodable (len mac : Nat) (h : len = 6) : encodable (Opt.lla len mac) = true := by
+  subst h; rfl
+
+theorem portal_opt_encodable (u len : Nat) (h1 : 1 ≤ len) (h2 : len ≤ 246) :
+    encodable (Opt.captivePortal u len) = true := by
+  simp only [encodable, Bool.and_eq_true, decide_eq_true_eq]; exact ⟨h1, h2⟩
+
+theorem nat64Len_eq (b : Nat) : Spec.C03.nat64Len b = Spec.C02.nat64Len b := rfl
+
+theorem pref64_opt_encodable (maxI : Dur) (p : RawPref64) (hdoc : docPref64 p = true)
+    (h4 : 4 * second ≤ maxI) (h1800 : maxI ≤ 1800 * second) :
+    encodable (Opt.pref64 ((Spec.C02.pref64Of p).getD Spec.C02.wellKnown64) (Spec.C02.pref64Lifetime maxI)) = true := by
+  obtain ⟨hf, hle, hmod⟩ := Props.C01.pref64_lifetime_formula maxI h4 h1800
+  have hge := (Props.C01.pref64_lifetime_ge maxI h4 h1800).1
+  have hlt : 0 ≤ Spec.C02.pref64Lifetime maxI ∧ Spec.C02.pref64Lifetime maxI / (8 * second) ≤ 8191 := by
+    unfold second at *; omega
+  unfold docPref64 at hdoc
+  cases hq : Spec.C02.pref64Of p with
+  | none => rw [hq] at hdoc; cases hdoc
+  | some q =>
+    rw [hq] at hdoc
+    simp only at hdoc
+    have hcanon : q.addr.is6 = true ∧ q.addr.is4In6 = false ∧ q.masked = q := by
+      cases p with
+      | unset => simp only [Spec.C02.pref64Of, Option.some.injEq] at hq; subst hq; decide
+      | empty => simp only [Spec.C02.pref64Of, Option.some.injEq] at hq; subst hq; decide
+      | str s =>
+        cases s with
+        | empty => simp only [Spec.C02.pref64Of, Option.some.injEq] at hq; subst hq; decide
+        | bad => cases hq
+        | ok x =>
+          simp only [Spec.C02.pref64Of] at hq
+          split at hq
+          · rename_i hc
+            simp only [Option.some.injEq] at hq
+            subst hq
+            unfold Spec.C02.canonical6 at hc
+            simp only [Bool.and_eq_true, beq_iff_eq, Bool.not_eq_true'] at hc
+            exact ⟨hc.1.2, hc.2, hc.1.1⟩
+          · cases hq
+    simp only [Option.getD_some, encodable, Bool.and_eq_true, decide_eq_true_eq, beq_iff_eq, Bool.not_eq_true',
+      nat64Len_eq]
+    exact ⟨⟨⟨⟨⟨⟨hcanon.1, hcanon.2.1⟩, hdoc⟩, hcanon.2.2⟩, hlt.1⟩, hmod⟩, hlt.2⟩
+
+/-! #### the header -/
+
+theorem plainDur_within (s : DurStr) (h : Spec.C02.within 0 hour (Spec.C02.plainDur s 0) = true) :
+    fits ((Spec.C02.plainDur s 0).getD 0) ms 32 = true := by
+  cases hp : Spec.C02.plainDur s 0 with
+  | none => rw [hp] at h; cases h
+  | some d =>
+    rw [hp] at h
+    simp only [Spec.C02.within, Bool.and_eq_true, decide_eq_true_eq] at h
+    simp only [Option.getD_some, fits, Bool.and_eq_true, decide_eq_true_eq]
+    refine ⟨h.1, ?_⟩
+    have := h.2
+    unfold hour second at this
+    unfold ms
+    omega
+
+theorem lifetimeOf_fits (s : DurStr) (maxI : Dur) (h4 : 4 * second ≤ maxI) :
+    fits ((Spec.C02.lifetimeOf s maxI).getD 0) second 16 = true := by
+  unfold Spec.C02.lifetimeOf
+  have hz : fits 0 second 16 = true := by decide
+  cases resolve s (3 * maxI) with
+  | none => exact hz
+  | some l =>
+    simp only
+    split
+    · rename_i h
+      simp only [Option.getD_some, fits, Bool.and_eq_true, decide_eq_true_eq]
+      have : (2:Int) ^ 16 = 65536 := by decide
+      unfold second at *
+      omega
+    · exact hz
+
+/-- the header of the RA an accepted advertising stanza calls for is within every field's range -/
+theorem header_wireSafe (i : RawInterface) (maxI : Dur) (fw : Bool) (h4 : 4 * second ≤ maxI)
+    (hsc : Props.C02.docScalars i maxI = true) :
+    (i.hopLimit.getD 64).toNat ≤ 255 ∧
+    (((Spec.C02.prefCode i.preference).getD 0 == 0 || (Spec.C02.prefCode i.preference).getD 0 == 1 ||
+      (Spec.C02.prefCode i.preference).getD 0 == 3) = true) ∧
+    fits (if fw then (Spec.C02.lifetimeOf i.defaultLifetime maxI).getD 0 else 0) second 16 = true ∧
+    fits ((Spec.C02.plainDur i.reachable 0).getD 0) ms 32 = true ∧
+    fits ((Spec.C02.plainDur i.retransmit 0).getD 0) ms 32 = true := by
+  unfold Props.C02.docScalars at hsc
+  simp only [Bool.and_eq_true] at hsc
+  obtain ⟨⟨⟨⟨⟨_, hre⟩, hrt⟩, hhop⟩, _⟩, hpc⟩ := hsc
+  refine ⟨?_, ?_, ?_, plainDur_within _ hre, plainDur_within _ hrt⟩
+  · cases hh : i.hopLimit with
+    | none => decide
+    | some h =>
+      rw [hh] at hhop
+      simp only [Bool.and_eq_true, decide_eq_true_eq] at hhop
+      simp only [Option.getD_some]
+      omega
+  · cases hp : Spec.C02.prefCode i.preference with
+    | none => rw [hp] at hpc; cases hpc
+    | some pc => exact pref_ok pc (prefCode_vals _ _ hp)
+  · cases fw
+    · exact (by decide : fits 0 second 16 = true)
+    · exact lifetimeOf_fits _ _ h4
+
+/-! #### assembly -/
+
+theorem concatOpts_mem (L : List (Option (List Opt))) (opts : List Opt) (h : Spec.C01.concatOpts L = some opts) :
+    ∀ o ∈ opts, ∃ l, some l ∈ L ∧ o ∈ l := by
+  induction L generalizing opts with
+  | nil =>
+    simp only [Spec.C01.concatOpts, Option.some.injEq] at h
+    subst h
+    intro o ho; cases ho
+  | cons x xs ih =>
+    cases x with
+    | none => cases h
+    | some a =>
+      simp only [Spec.C01.concatOpts] at h
+      cases hr : Spec.C01.concatOpts xs with
+      | none => rw [hr] at h; cases h
+      | some rest =>
+        rw [hr] at h
+        simp only [Option.map_some, Option.some.injEq] at h
+        subst h
+        intro o ho
+        rcases List.mem_append.mp ho with ho | ho
+        · exact ⟨a, List.mem_cons_self, ho⟩
+        · obtain ⟨l, hl, hol⟩ := ih rest hr o ho
+          exact ⟨l, List.mem_cons_of_mem _ hl, hol⟩
+
+/-- input well-formedness beyond C02's `wfIface`: the addresses of successfully parsed
+    `prefix`/`route` CIDRs are 128-bit values (as every `netip.Addr` is) -/
+def wfVals (i : RawInterface) : Prop :=
+  (∀ p ∈ i.prefixes, wfVal p.pstr) ∧ (∀ r ∈ i.routes, wfVal r.pstr)
+
+/-- every option an accepted advertising stanza calls for is encodable -/
+theorem options_encodable (i : RawInterface) (sys : SysState) (maxI : Dur)
+    (hwf : Props.C02.wfIface i = true) (hvals : wfVals i)
+    (h4 : 4 * second ≤ maxI) (h1800 : maxI ≤ 1800 * second) (hpl : Props.C02.docPlugins i maxI = true)
+    (hclock : sys.epoch ≤ sys.now) (hmac : ∀ l m, sys.mac = some (l, m) → l = 6)
+    (haddrs : ∀ as, sys.addrs = some as → Props.C14.WF as)
+    (hroutes : ∀ rs, sys.routes = some rs → WFr rs)
+    (hcount : ∀ d ∈ i.rdnss, d.servers.length ≤ 127)
+    (hportal : ∀ u l, i.captivePortal = .ok u l → 1 ≤ l)
+    (opts : List Opt) (h : Spec.C01.expectedOptions i sys maxI = some opts) :
+    ∀ o ∈ opts, encodable o = true := by
+  unfold Props.C02.wfIface at hwf
+  simp only [Bool.and_eq_true, List.all_eq_true] at hwf
+  unfold Props.C02.docPlugins at hpl
+  simp only [Bool.and_eq_true, List.all_eq_true, decide_eq_true_eq] at hpl
+  obtain ⟨⟨⟨⟨⟨⟨⟨⟨⟨hdp, _⟩, hdr⟩, _⟩, hdd⟩, hds⟩, hm0⟩, hm1⟩, hcp⟩, hd64⟩ := hpl
+  intro o ho
+  unfold Spec.C01.expectedOptions at h
+  obtain ⟨l, hl, hol⟩ := concatOpts_mem _ _ h o ho
+  simp only [List.mem_append, List.mem_map, List.mem_singleton, Option.some.injEq] at hl
+  rcases hl with ((((((⟨p, hp, hpo⟩ | ⟨r, hr, hro⟩) | ⟨d, hd, hdo⟩) | ⟨d, hd, hdo⟩) | hmtu) | hlla) | hport) | ⟨p, hp, hpo⟩
+  · exact prefix_opts_encodable sys p (hdp p hp) (hwf.1 p hp) (hvals.1 p hp) hclock haddrs l hpo o hol
+  · exact route_opts_encodable sys r (hdr r hr) (hwf.2 r hr) (hvals.2 r hr) hclock hroutes l hro o hol
+  · exact rdnss_opts_encodable sys maxI d (hdd d hd) (hcount d hd) haddrs l hdo o hol
+  · subst hdo
+    simp only [List.mem_singleton] at hol
+    subst hol
+    exact dnssl_opt_encodable maxI d (hds d hd)
+  · subst hmtu
+    split at hol
+    · simp only [List.mem_singleton] at hol
+      subst hol
+      exact mtu_opt_encodable _ hm0 hm1
+    · cases hol
+  · subst hlla
+    split at hol
+    · cases hmc : sys.mac with
+      | none => rw [hmc] at hol; cases hol
+      | some x =>
+        obtain ⟨len, mac⟩ := x
+        rw [hmc] at hol
+        simp only [List.mem_singleton] at hol
+        subst hol
+        exact lla_opt_encodable _ _ (hmac len mac hmc)
+    · cases hol
+  · subst hport
+    cases hc : i.captivePortal with
+    | empty => rw [hc] at hol; cases hol
+    | bad => rw [hc] at hol; cases hol
+    | ok u len =>
+      rw [hc] at hol hcp
+      simp only [List.mem_singleton] at hol
+      subst hol
+      simp only [Spec.C02.portalOk, decide_eq_true_eq] at hcp
+      exact portal_opt_encodable u len (hportal u len hc) hcp
+  · subst hpo
+    simp only [List.mem_singleton] at hol
+    subst hol
+    exact pref64_opt_encodable maxI p (hd64 p hp) h4 h1800
+
+/-- **Accepted ⇒ wire safe.**  The RA an accepted advertising stanza calls for — in every
+    system state with a non-decreasing clock, a 6-byte hardware address (if any) and well-formed
+    address/route dumps, with forwarding on or off — has every duration within its field's
+    range and every option encodable. -/
+theorem accepted_wireSafe (i : RawInterface) (sys : SysState) (fw : Bool)
+    (hwf : Props.C02.wfIface i = true) (hvals : wfVals i)
+    (hdoc : Spec.C02.docInterface i = true) (hadv : i.monitor = false)
+    (hclock : sys.epoch ≤ sys.now) (hmac : ∀ l m, sys.mac = some (l, m) → l = 6)
+    (haddrs : ∀ as, sys.addrs = some as → Props.C14.WF as)
+    (hroutes : ∀ rs, sys.routes = some rs → WFr rs)
+    (hcount : ∀ d ∈ i.rdnss, d.servers.length ≤ 127)
+    (hportal : ∀ u l, i.captivePortal = .ok u l → 1 ≤ l)
+    (ra : RA) (h : Spec.C01.expectedRA i sys fw = some ra) : wireSafe ra = true := by
+  obtain ⟨maxI, hm, h4, h1800, hsc, hpl⟩ := Props.C01.doc_maxI i hdoc hadv
+  unfold Spec.C01.expectedRA at h
+  simp only [hm, Option.getD_some] at h
+  cases ho : Spec.C01.expectedOptions i sys maxI with
+  | none => rw [ho] at h; cases h
+  | some opts =>
+    rw [ho] at h
+    simp only [Option.map_some, Option.some.injEq] at h
+    subst h
+    obtain ⟨hh, hp, hrl, hre, hrt⟩ := header_wireSafe i maxI fw h4 hsc
+    have hopts := options_encodable i sys maxI hwf hvals h4 h1800 hpl hclock hmac haddrs hroutes hcount hportal opts ho
+    unfold wireSafe
+    simp only [Bool.and_eq_true, decide_eq_true_eq, List.all_eq_true]
+    exact ⟨⟨⟨⟨⟨hh, hp⟩, hrl⟩, hre⟩, hrt⟩, hopts⟩
+
+/-- the same for the RA the model builds from the resolved interface -/
+theorem built_wireSafe (n : Nat) (i : RawInterface) (sys : SysState) (fw : Bool)
+    (hwf : Props.C02.wfIface i = true) (hvals : wfVals i)
+    (hdoc : Spec.C02.docInterface i = true) (hadv : i.monitor = false)
+    (hclock : sys.epoch ≤ sys.now) (hmac : ∀ l m, sys.mac = some (l, m) → l = 6)
+    (haddrs : ∀ as, sys.addrs = some as → Props.C14.WF as)
+    (hroutes : ∀ rs, sys.routes = some rs → WFr rs)
+    (hcount : ∀ d ∈ i.rdnss, d.servers.length ≤ 127)
+    (hportal : ∀ u l, i.captivePortal = .ok u l → 1 ≤ l)
+    (ra : RA) (mis : Bool) (h : routerAdvertisement (Spec.C02.expInterface n i) sys fw = some (ra, mis)) :
+    wireSafe ra = true := by
+  apply accepted_wireSafe i sys fw hwf hvals hdoc hadv hclock hmac haddrs hroutes hcount hportal
+  rw [← Props.C01.build_eq_spec n i sys fw hdoc hadv, h]
+  rfl
+
+/-- parse, build, encode, decode: whatever the parser accepts yields an RA whose decoded wire
+    image is the RA itself with every duration truncated to its field's unit -/
+theorem accepted_roundtrip (n : Nat) (i : RawInterface) (sys : SysState) (fw : Bool)
+    (hwf : Props.C02.wfIface i = true) (hvals : wfVals i) (hadv : i.monitor = false)
+    (hclock : sys.epoch ≤ sys.now) (hmac : ∀ l m, sys.mac = some (l, m) → l = 6)
+    (haddrs : ∀ as, sys.addrs = some as → Props.C14.WF as)
+    (hroutes : ∀ rs, sys.routes = some rs → WFr rs)
+    (hcount : ∀ d ∈ i.rdnss, d.servers.length ≤ 127)
+    (hportal : ∀ u l, i.captivePortal = .ok u l → 1 ≤ l)
+    (ifi : Interface) (hparse : parseInterface n i = some ifi)
+    (ra : RA) (mis : Bool) (h : routerAdvertisement ifi sys fw = some (ra, mis)) :
+    wireSafe ra = true ∧ decodeFields (encodeFields ra) = truncateRA ra := by
+  rw [Props.C02.parseInterface_eq n i hwf] at hparse
+  cases hd : Spec.C02.docInterface i with
+  | false => rw [hd] at hparse; cases hparse
+  | true =>
+    rw [hd] at hparse
+    simp only [if_true, Option.some.injEq] at hparse
+    subst hparse
+    have hs := built_wireSafe n i sys fw hwf hvals hd hadv hclock hmac haddrs hroutes hcount hportal ra mis h
+    exact ⟨hs, roundtrip ra hs⟩
+
+/-- The model (with the field-level codec) meets the oracle that the check evaluates on the
+    implementation's output. -/
+theorem holds_model (ra : RA) (h : wireSafe ra = true) :
+    Spec.C03.holds "ok" (some ra) "wire" (some (decodeFields (encodeFields ra))) = (true, "") := by
+  unfold Spec.C03.holds
+  rw [roundtrip ra h]
+  simp only [h, Bool.not_true, Bool.false_eq_true, if_false, beq_self_eq_true, if_true]
+  decide
+
+/-! ### non-vacuity and the necessity of the hypotheses -/
+
+open Corerad.Props.C01 (exIface exSys exRA ex_expected)
+
+/-- every hypothesis of `accepted_wireSafe` is satisfiable at once, and the theorem then yields
+    wire safety of a 10-option RA; its decoded wire image truncates the two sub-second
+    lifetimes (2999.999999996 s → 2999 s, 1199.999999995 s → 1199 s) and nothing else -/
+example : wireSafe exRA = true ∧
+    decodeFields (encodeFields exRA) =
+      { exRA with options := (exRA.options.set 1
+          (.pi { val := 0x20010db8000000010000000000000000 } 64 true false (2999 * second) (1199 * second))) } := by
+  have hs : wireSafe exRA = true := by
+    apply accepted_wireSafe exIface exSys true (by decide) ?_ (by decide +kernel) rfl (by decide) ?_ ?_ ?_ ?_ ?_ exRA
+      ex_expected
+    · refine ⟨?_, ?_⟩ <;> intro p hp <;> simp only [exIface, List.mem_cons, List.not_mem_nil, or_false] at hp <;>
+        rcases hp with rfl | rfl <;> simp [wfVal]
+    · intro l m h; simp only [exSys, Option.some.injEq, Prod.mk.injEq] at h; exact h.1.symm
+    · intro as h
+      simp only [exSys, Option.some.injEq] at h
+      subst h
+      intro a ha
+      simp only [List.mem_cons, List.not_mem_nil, or_false] at ha
+      rcases ha with rfl | rfl <;> exact ⟨by decide, by decide⟩
+    · intro rs h
+      simp only [exSys, Option.some.injEq] at h
+      subst h
+      refine ⟨?_, ?_⟩ <;> intro r hr <;> simp only [List.mem_cons, List.not_mem_nil, or_false] at hr <;> subst hr
+      · exact ⟨by decide, by decide⟩
+      · decide
+    · intro d hd
+      simp only [exIface, List.mem_cons, List.not_mem_nil, or_false] at hd
+      subst hd; decide
+    · intro u l h
+      simp only [exIface, CPStr.ok.injEq] at h
+      omega
+  exact ⟨hs, by rw [roundtrip exRA hs]; decide +kernel⟩
+
+/-- `hportal` is necessary: the documented constraints (and the parser) accept a captive
+    portal whose recorded length is 0, which no wire-safe RA can carry.  (`ndp.NewCaptivePortal`
+    never returns an empty URI for a non-empty string, so the raw value cannot occur.) -/
+theorem portal_len_needed :
+    Spec.C02.portalOk (.ok 9 0) = true ∧ encodable (.captivePortal 9 0) = false := by decide
+
+/-- `wfVals` is necessary: a value of 2^128 passes the documented canonical-prefix test (it is
+    its own /64 mask) but is not a 128-bit address.  (`netip.Addr` cannot hold it.) -/
+theorem wfVals_needed :
+    let q : Prefix := { addr := { val := 2 ^ 128 }, bits := 64 }
+    Spec.C02.docPrefix { pstr := .ok q } = true ∧ wfPfx (.ok q) = true ∧
+    canonical6 q.addr q.bits = false := by decide +kernel
+
+/-- `hclock` is necessary: with the clock *before* the epoch, a deprecated lifetime exceeds its
+    configured value and may leave the 32-bit range -/
+theorem clock_needed :
+    let p : RawPrefix := { pstr := .ok { addr := { val := 0x20010db8000000010000000000000000 }, bits := 64 },
+                           valid := .lit (4294967294 * second), preferred := .lit second, deprecated := true }
+    Spec.C02.docPrefix p = true ∧
+    (Spec.C01.prefixOpts { epoch := 10 * second, now := 0 } p).map (·.all encodable) = some false := by
+  decide +kernel
+
+/-- `hcount` is necessary: 128 distinct static servers are documented (no limit is) but do not
+    fit one RDNSS option's 8-bit length -/
+theorem count_needed :
+    let d : RawRDNSS := { servers := (List.range 128).map fun k => .ok { val := 0x20010db8000000000000000000000001 + k } }
+    Spec.C02.docRDNSS (600 * second) d = true ∧
+    (Spec.C01.rdnssOpts {} (600 * second) d).map (·.all encodable) = some false := by
+  decide +kernel
+
 end Corerad.Props.C03
